@@ -78,7 +78,10 @@ thread_local! {
     static ARMED: Cell<Option<u64>> = const { Cell::new(None) };
     /// when set: the database file is hashed at every tick (landmarks of the uninterrupted run)
     static WATCH: std::cell::RefCell<Option<(PathBuf, Vec<u64>)>> = const { std::cell::RefCell::new(None) };
+    static WATCH_LABELS: std::cell::RefCell<Vec<&'static str>> = const { std::cell::RefCell::new(Vec::new()) };
     static FIRST_WRITE: Cell<u64> = const { Cell::new(0) };
+    /// first durable write that is not the storage layer's own snapshot transaction
+    static FIRST_CORE_WRITE: Cell<u64> = const { Cell::new(0) };
     static APP_TARGET: Cell<bool> = const { Cell::new(false) };
     static LAST_WRITE: Cell<u64> = const { Cell::new(0) };
 }
@@ -94,7 +97,10 @@ fn file_hash(p: &Path) -> u64 {
 
 fn install_counter() {
     TICKS.with(|t| t.set(0));
-    mdk_sqlite_storage::verif::set_tick_handler(Some(Rc::new(|_label: &'static str| {
+    if WATCH.with(|w| w.borrow().is_some()) {
+        WATCH_LABELS.with(|l| l.borrow_mut().clear());
+    }
+    mdk_sqlite_storage::verif::set_tick_handler(Some(Rc::new(|label: &'static str| {
         let n = TICKS.with(|t| {
             let v = t.get();
             t.set(v + 1);
@@ -104,6 +110,7 @@ fn install_counter() {
             if let Some((p, v)) = w.borrow_mut().as_mut() {
                 let h = file_hash(p);
                 v.push(h);
+                WATCH_LABELS.with(|l| l.borrow_mut().push(label));
             }
         });
         if ARMED.with(|a| a.get()) == Some(n) {
@@ -222,6 +229,10 @@ struct Built {
     /// events to hand over after the target (in order)
     later: Vec<Event>,
     label: String,
+    /// events the same MDK instance processes right before the counted call (commit-with-rollback:
+    /// the worse commit, so that its snapshot is live - a reopened instance forgets the commit's
+    /// timestamp, listed finding O8)
+    prelude: Vec<Event>,
 }
 
 fn build(case: &Case) -> Result<Option<Built>, Failure> {
@@ -249,15 +260,21 @@ fn build(case: &Case) -> Result<Option<Built>, Failure> {
     let mut obs = NoObserver;
     let v = 1usize;
     // selectors: client index -> u16 selector over actors
-    let n_act = w.actors().len();
-    let sel = |i: usize| -> u16 { (((i as u32) << 16) / n_act as u32 + 1) as u16 };
+    // (local operations pick among the clients that currently hold the group as Active)
+    fn sel_in(w: &World, i: usize) -> u16 {
+        let a = w.active_actors();
+        match a.iter().position(|x| *x == i) {
+            Some(pos) => (((pos as u32) << 16) / a.len() as u32 + 1) as u16,
+            None => 0,
+        }
+    }
     // warm-up: commits by the creator and messages, all delivered
     for i in 0..case.warm_commits.min(3) {
-        w.apply_op(&Op::Data { m: sel(0), ts: i, apply: Apply::Echo, change: DataChange::Name(i) }, &mut obs)?;
+        w.apply_op(&Op::Data { m: sel_in(&w, 0), ts: i, apply: Apply::Echo, change: DataChange::Name(i) }, &mut obs)?;
         w.apply_op(&Op::Sync, &mut obs)?;
     }
     for i in 0..case.warm_messages.min(3) {
-        w.apply_op(&Op::Msg { m: sel((i as usize) % members as usize), kind: i, at: i, tag: i }, &mut obs)?;
+        w.apply_op(&Op::Msg { m: sel_in(&w, (i as usize) % members as usize), kind: i, at: i, tag: i }, &mut obs)?;
     }
     w.apply_op(&Op::Sync, &mut obs)?;
     let peer = if members > 2 { 2 } else { 0 };
@@ -270,16 +287,17 @@ fn build(case: &Case) -> Result<Option<Built>, Failure> {
         Ok(())
     };
     let before = w.relay.len();
+    let mut prelude: Vec<Event> = vec![];
     let (target, label): (Target, String) = match case.scenario {
         S::App => {
-            w.apply_op(&Op::Msg { m: sel(0), kind: 1, at: 1, tag: 1 }, &mut obs)?;
+            w.apply_op(&Op::Msg { m: sel_in(&w, 0), kind: 1, at: 1, tag: 1 }, &mut obs)?;
             (Target::Deliver(w.relay.last().unwrap().ev.clone()), "process_message(application)".into())
         }
         S::Proposal | S::ProposalAtAdmin => {
             if members < 3 {
                 return Ok(None);
             }
-            w.apply_op(&Op::Leave { m: sel(2), ts: 1 }, &mut obs)?;
+            w.apply_op(&Op::Leave { m: sel_in(&w, 2), ts: 1 }, &mut obs)?;
             if w.relay.len() == before {
                 return Ok(None);
             }
@@ -288,13 +306,13 @@ fn build(case: &Case) -> Result<Option<Built>, Failure> {
         S::Commit | S::CommitEvictingVictim => {
             let op = if case.scenario == S::CommitEvictingVictim {
                 // creator removes the victim: target selector over the creator's member list without itself
-                Op::Remove { m: sel(0), target: 0, ts: 1, apply: Apply::Echo, extra: 0 }
+                Op::Remove { m: sel_in(&w, 0), target: 0, ts: 1, apply: Apply::Echo, extra: 0 }
             } else {
                 match case.commit_kind % 4 {
-                    0 => Op::SelfUpdate { m: sel(0), ts: 1, apply: Apply::Echo },
-                    1 => Op::Data { m: sel(0), ts: 1, apply: Apply::Echo, change: DataChange::RotateId(1) },
-                    2 => Op::Add { m: sel(0), ts: 1, apply: Apply::Echo, extra: 0 },
-                    _ => Op::Data { m: sel(0), ts: 1, apply: Apply::Echo, change: DataChange::Relays(2) },
+                    0 => Op::SelfUpdate { m: sel_in(&w, 0), ts: 1, apply: Apply::Echo },
+                    1 => Op::Data { m: sel_in(&w, 0), ts: 1, apply: Apply::Echo, change: DataChange::RotateId(1) },
+                    2 => Op::Add { m: sel_in(&w, 0), ts: 1, apply: Apply::Echo, extra: 0 },
+                    _ => Op::Data { m: sel_in(&w, 0), ts: 1, apply: Apply::Echo, change: DataChange::Relays(2) },
                 }
             };
             w.apply_op(&op, &mut obs)?;
@@ -309,17 +327,18 @@ fn build(case: &Case) -> Result<Option<Built>, Failure> {
         }
         S::CommitWithRollback => {
             // two competing commits; the victim applies the worse one first
-            w.apply_op(&Op::SelfUpdate { m: sel(0), ts: 3, apply: Apply::Echo }, &mut obs)?;
+            w.apply_op(&Op::SelfUpdate { m: sel_in(&w, 0), ts: 3, apply: Apply::Echo }, &mut obs)?;
             let worse = w.relay.len() - 1;
-            w.apply_op(&Op::SelfUpdate { m: sel(peer.max(2).min(members as usize - 1)), ts: 1, apply: Apply::Echo }, &mut obs)?;
-            if w.relay.len() != before + 2 || w.relay[before + 1].author == w.relay[before].author {
+            w.apply_op(&Op::SelfUpdate { m: sel_in(&w, peer.max(2).min(members as usize - 1)), ts: 1, apply: Apply::Echo }, &mut obs)?;
+            if w.relay.len() != before + 2 || w.relay[before + 1].author == w.relay[before].author || w.relay[before + 1].author == v {
+                // (with two members the competitor would be the victim itself: that is the own-echo scenario)
                 return Ok(None);
             }
-            w.deliver(v, worse, &mut obs)?;
+            prelude.push(w.relay[worse].ev.clone());
             (Target::Deliver(w.relay[before + 1].ev.clone()), "process_message(better competing commit; rollback)".into())
         }
         S::OwnCommitEcho | S::MergePending => {
-            w.apply_op(&Op::SelfUpdate { m: sel(v), ts: 1, apply: Apply::Echo }, &mut obs)?;
+            w.apply_op(&Op::SelfUpdate { m: sel_in(&w, v), ts: 1, apply: Apply::Echo }, &mut obs)?;
             if w.relay.len() == before || w.relay.last().unwrap().author != v {
                 return Ok(None);
             }
@@ -330,7 +349,7 @@ fn build(case: &Case) -> Result<Option<Built>, Failure> {
             }
         }
         S::ProcessWelcome | S::AcceptWelcome => {
-            w.apply_op(&Op::Add { m: sel(0), ts: 1, apply: Apply::Echo, extra: 0 }, &mut obs)?;
+            w.apply_op(&Op::Add { m: sel_in(&w, 0), ts: 1, apply: Apply::Echo, extra: 0 }, &mut obs)?;
             let Some(wl) = w.welcomes.last().cloned() else { return Ok(None) };
             if w.clients[wl.to].kind != BackendKind::Sql {
                 return Ok(None);
@@ -343,7 +362,7 @@ fn build(case: &Case) -> Result<Option<Built>, Failure> {
             // the joiner is the victim here
             deliver_all_but(&mut w, wl.to, &mut obs)?;
             let label = if case.scenario == S::ProcessWelcome { "process_welcome" } else { "process_welcome + accept_welcome" };
-            return Ok(Some(Built { victim: wl.to, target: t, later: later_events(&mut w, wl.to, &mut obs)?, world: w, label: label.into() }));
+            return Ok(Some(Built { victim: wl.to, target: t, later: later_events(&mut w, wl.to, &mut obs)?, world: w, label: label.into(), prelude: vec![] }));
         }
         S::CreateGroup => {
             let kp = World::make_key_package(&w.clients[0]).map_err(|e| Failure::new("setup-failed", e))?;
@@ -356,14 +375,12 @@ fn build(case: &Case) -> Result<Option<Built>, Failure> {
     // peers move on without the victim
     deliver_all_but(&mut w, v, &mut obs)?;
     let later = later_events(&mut w, v, &mut obs)?;
-    Ok(Some(Built { world: w, victim: v, target, later, label }))
+    Ok(Some(Built { world: w, victim: v, target, later, label, prelude }))
 }
 
 /// after the target: a peer sends a message, commits, and sends another message; the victim
 /// will be handed these afterwards
 fn later_events(w: &mut World, skip: usize, obs: &mut NoObserver) -> Result<Vec<Event>, Failure> {
-    let n_act = w.actors().len();
-    let sel = |i: usize| -> u16 { (((i as u32) << 16) / n_act as u32 + 1) as u16 };
     let start = w.relay.len();
     // first let the creator apply its own pending commit
     w.catch_up(0, obs)?;
@@ -372,10 +389,10 @@ fn later_events(w: &mut World, skip: usize, obs: &mut NoObserver) -> Result<Vec<
             w.catch_up(m, obs)?;
         }
     }
-    w.apply_op(&Op::Msg { m: sel(0), kind: 2, at: 2, tag: 2 }, obs)?;
-    w.apply_op(&Op::Data { m: sel(0), ts: 2, apply: Apply::Echo, change: DataChange::Description(1) }, obs)?;
+    w.apply_op(&Op::Msg { m: 0, kind: 2, at: 2, tag: 2 }, obs)?;
+    w.apply_op(&Op::Data { m: 0, ts: 2, apply: Apply::Echo, change: DataChange::Description(1) }, obs)?;
     w.catch_up(0, obs)?;
-    w.apply_op(&Op::Msg { m: sel(0), kind: 0, at: 0, tag: 0 }, obs)?;
+    w.apply_op(&Op::Msg { m: 0, kind: 0, at: 0, tag: 0 }, obs)?;
     Ok(w.relay[start..].iter().map(|e| e.ev.clone()).collect())
 }
 
@@ -516,6 +533,9 @@ fn enumerate(case: &Case, b: &Built, mode: Mode, rep: &mut CaseReport, trace: &m
     copy_db(&base, &twin)?;
     let (k_total, expected_after_target, expected_final, twin_result) = {
         let mdk = open(&twin, &cfg).map_err(|e| Failure::new("setup-failed", e))?;
+        for ev in &b.prelude {
+            let _ = on_mdk!(&mdk, m => m.process_message(ev));
+        }
         WATCH.with(|w| *w.borrow_mut() = Some((twin.clone(), vec![])));
         install_counter();
         let r = run_target(&mdk, &gid, &keys, &b.target);
@@ -527,6 +547,13 @@ fn enumerate(case: &Case, b: &Built, mode: Mode, rep: &mut CaseReport, trace: &m
         // complete from tick `last_write` on
         FIRST_WRITE.with(|f| f.set(hashes.iter().position(|h| *h != hashes[0]).map(|p| p as u64 - 1).unwrap_or(k)));
         LAST_WRITE.with(|f| f.set(hashes.iter().position(|h| *h == final_hash).map(|p| p as u64).unwrap_or(k)));
+        // a change seen at tick p was made by the statement that started at tick p-1
+        let labels = WATCH_LABELS.with(|l| l.borrow().clone());
+        let core = (1..hashes.len())
+            .find(|&p| hashes[p] != hashes[p - 1] && !labels.get(p - 1).map(|l| l.starts_with("snapshot:")).unwrap_or(false))
+            .map(|p| p as u64 - 1)
+            .unwrap_or(k);
+        FIRST_CORE_WRITE.with(|f| f.set(core));
         let after = observe(&mdk).map_err(|e| Failure::new("setup-failed", format!("twin unreadable: {e}")))?;
         for ev in &b.later {
             let _ = on_mdk!(&mdk, m => m.process_message(ev));
@@ -536,7 +563,7 @@ fn enumerate(case: &Case, b: &Built, mode: Mode, rep: &mut CaseReport, trace: &m
     };
     trace.push(format!("uninterrupted: {:?}, {k_total} storage ticks", twin_result));
     if twin_result.is_err() {
-        rep.classes.push("target-fails-uninterrupted".into());
+        rep.classes.push(format!("target-fails-uninterrupted:{:?}:{}", case.scenario, twin_result.as_ref().err().map(|e| e.chars().take(60).collect::<String>()).unwrap_or_default()));
         return Ok(());
     }
     rep.classes.push(format!("{:?}", case.scenario));
@@ -544,6 +571,9 @@ fn enumerate(case: &Case, b: &Built, mode: Mode, rep: &mut CaseReport, trace: &m
     let pre = {
         copy_db(&base, &work)?;
         let mdk = open(&work, &cfg).map_err(|e| Failure::new("setup-failed", e))?;
+        for ev in &b.prelude {
+            let _ = on_mdk!(&mdk, m => m.process_message(ev));
+        }
         observe(&mdk).map_err(|e| Failure::new("setup-failed", e))?
     };
 
@@ -556,7 +586,7 @@ fn enumerate(case: &Case, b: &Built, mode: Mode, rep: &mut CaseReport, trace: &m
         copy_db(&base, &work)?;
         if case.abort_in_child {
             // a real process death: abort() in a child, hot journal and all
-            match run_in_child(&work, k, &gid, &keys, &b.target) {
+            match run_in_child(&work, k, &gid, &keys, &b.target, &b.prelude) {
                 Ok(true) => {
                     *rep.counters.entry("crash-points-by-abort-in-child-process".into()).or_insert(0) += 1;
                     let journal = PathBuf::from(format!("{}-journal", work.display()));
@@ -569,6 +599,9 @@ fn enumerate(case: &Case, b: &Built, mode: Mode, rep: &mut CaseReport, trace: &m
             }
         } else {
             let mdk = open(&work, &cfg).map_err(|e| Failure::new("setup-failed", e))?;
+            for ev in &b.prelude {
+                let _ = on_mdk!(&mdk, m => m.process_message(ev));
+            }
             install_counter();
             ARMED.with(|a| a.set(Some(k)));
             let r = std::panic::catch_unwind(std::panic::AssertUnwindSafe(|| run_target(&mdk, &gid, &keys, &b.target)));
@@ -649,6 +682,9 @@ fn enumerate(case: &Case, b: &Built, mode: Mode, rep: &mut CaseReport, trace: &m
         let fin = observe(&mdk).map_err(|e| Failure::new("group-does-not-load-after-crash", format!("{ctx}: after re-processing: {e}")))?;
         if fin == expected_final {
             *rep.counters.entry(format!("recovered:{phase}")).or_insert(0) += 1;
+            if std::env::var("VCHECK_C12_DEBUG").is_ok() {
+                println!("  tick {k}/{k_total} [{}]: recovered ({phase}; retry {retry_note})", WATCH_LABELS.with(|l| l.borrow().get(k as usize).copied().unwrap_or("?")));
+            }
             continue;
         }
         // ---- not the uninterrupted run's state: a listed finding?
@@ -657,14 +693,28 @@ fn enumerate(case: &Case, b: &Built, mode: Mode, rep: &mut CaseReport, trace: &m
         let last_write = LAST_WRITE.with(|f| f.get());
         // a crash at tick k happens before the statement of tick k runs: the file then holds
         // what the uninterrupted run held at tick k
+        let first_core_write = FIRST_CORE_WRITE.with(|f| f.get());
         let zone = if k <= first_write {
             "before-the-first-write"
         } else if k >= last_write {
             "after-the-last-write"
+        } else if k <= first_core_write {
+            // only the storage layer's own snapshot of the group has been written so far: none of
+            // the listed findings (they are all about OpenMLS / mdk-core writes that follow) applies
+            "after-the-snapshot-before-any-other-write"
         } else {
             "between-first-and-last-write"
         };
-        let finding = if zone == "between-first-and-last-write" { classify_finding(&mdk, &gid, &b.target, phase) } else { None };
+        let finding = if zone == "between-first-and-last-write" {
+            classify_finding(&mdk, &gid, &b.target, phase)
+        } else if !b.prelude.is_empty() && zone != "after-the-last-write" && phase == "nothing-persisted" {
+            // commit-with-rollback: the reopened instance has forgotten the timestamp of the
+            // commit it had applied, so the better commit can no longer displace it (listed for
+            // C11 as O8; here it is what "reopen and process the event again" runs into)
+            Some("O8-restart-forgets-commit-timestamps")
+        } else {
+            None
+        };
         let dbg = if let Target::Deliver(ev) = &b.target {
             let rec = on_mdk!(&mdk, m => m.provider.storage().find_processed_message_by_event_id(&ev.id)).ok().flatten();
             let snaps = on_mdk!(&mdk, m => m.provider.storage().list_group_snapshots(&gid)).unwrap_or_default();
@@ -673,6 +723,9 @@ fn enumerate(case: &Case, b: &Built, mode: Mode, rep: &mut CaseReport, trace: &m
             String::new()
         };
         let detail = format!("{ctx}{dbg} ({zone}: the call's first durable write is at tick {first_write}, its last at tick {last_write}): reopened with {phase}; re-offering the event answered {retry_note}; after all later events the client differs from the uninterrupted run: {diff}");
+        if std::env::var("VCHECK_C12_DEBUG").is_ok() {
+            println!("  tick {k}/{k_total} [{}]: NOT recovered, zone {zone}, finding {finding:?} (first write {first_write}, first core write {first_core_write}, last {last_write}; retry {retry_note})", WATCH_LABELS.with(|l| l.borrow().get(k as usize).copied().unwrap_or("?")));
+        }
         match (finding, mode) {
             (Some(key), Mode::Normal) => {
                 rep.excused.push(key.to_string());
@@ -778,6 +831,8 @@ struct ChildJob {
     gid_hex: String,
     secret_key_hex: String,
     target: Target,
+    #[serde(default)]
+    prelude: Vec<Event>,
 }
 
 /// entry point of `vcheck __crash_child <job.json>`
@@ -787,6 +842,9 @@ pub fn child_main(job_path: &str) -> i32 {
     let Ok(mdk) = open(&job.db, &Cfg::default()) else { return 3 };
     let Ok(keys) = nostr::Keys::parse(&job.secret_key_hex) else { return 3 };
     let gid = GroupId::from_slice(&hex::decode(&job.gid_hex).unwrap_or_default());
+    for ev in &job.prelude {
+        let _ = on_mdk!(&mdk, m => m.process_message(ev));
+    }
     TICKS.with(|t| t.set(0));
     let k = job.k;
     mdk_sqlite_storage::verif::set_tick_handler(Some(Rc::new(move |_l: &'static str| {
@@ -804,13 +862,14 @@ pub fn child_main(job_path: &str) -> i32 {
     0 // the tick was not reached
 }
 
-fn run_in_child(db: &Path, k: u64, gid: &GroupId, keys: &nostr::Keys, target: &Target) -> Result<bool, String> {
+fn run_in_child(db: &Path, k: u64, gid: &GroupId, keys: &nostr::Keys, target: &Target, prelude: &[Event]) -> Result<bool, String> {
     let job = ChildJob {
         db: db.to_path_buf(),
         k,
         gid_hex: hex::encode(gid.as_slice()),
         secret_key_hex: keys.secret_key().to_secret_hex(),
         target: target.clone(),
+        prelude: prelude.to_vec(),
     };
     let job_path = PathBuf::from(format!("{}.job.json", db.display()));
     std::fs::write(&job_path, serde_json::to_string(&job).map_err(|e| e.to_string())?).map_err(|e| e.to_string())?;
